@@ -70,6 +70,7 @@ Definition oracle (c : vmcase) : list N :=
       flat_map (fun r => run_oracle (fst r) (snd r)) runs ++
       match mode with MFresh => sufficient_agree runs | _ => [] end
   | VmOpTable _ => []
+  | VmReserved _ => []
   end.
 
 Definition check1 (c : vmcase) : list N := VmCheck.check1 c ++ oracle c.
